@@ -156,43 +156,50 @@ def wellformed(loc, ctx, clause, optimized=False, parent_len=None, expect_strand
 
 
 def frame_walk(blocks, strand, frames):
-    """FrameModel.  blocks: CDS blocks ascending (non-empty), frames: ints aligned with ascending blocks.
-    Returns list of codons, each a tuple of 3 parent positions in 5'->3' order.
+    """FrameModel (C05).  blocks: CDS blocks ascending (non-empty), frames: ints aligned with ascending blocks.
+    Returns (codons, degenerate) where codons is a list of 3-tuples of parent positions in 5'->3' order.
 
-    Walk exons 5'->3'; expected frame starts at 0 (no pending bases).  If an exon's annotated frame differs from
-    the expected frame: drop the pending incomplete codon, skip ``frame`` bases of this exon.  Emit a codon
-    every three bases."""
+    Walk the exons 5'->3'.  The running frame is the number of bases of the pending (incomplete) codon, 0 at the
+    start.  If an exon's annotated frame equals the running frame the pending codon continues into it.  Otherwise
+    (annotated start offset on the first exon, programmed frameshift later) the pending incomplete codon is dropped
+    and ``frame`` bases of this exon are skipped, after which the walk is in frame.  A codon is emitted every three
+    bases; a trailing incomplete codon is dropped.
+
+    degenerate=True when a skip is applied to an exon that is not longer than the skip (the property does not say
+    whether the remainder of the skip carries over)."""
     order = list(range(len(blocks)))
     if strand == "-":
         order.reverse()
     codons = []
     pending = []
+    degenerate = False
     for idx in order:
         s, e = blocks[idx]
         f = frames[idx]
         pos = list(range(s, e)) if strand != "-" else list(range(e - 1, s - 1, -1))
-        expected = (3 - len(pending)) % 3  # number of bases of this exon that complete the pending codon
-        if f != expected:
+        if f != len(pending):
             pending = []
+            if f >= len(pos):
+                degenerate = True
             pos = pos[f:]
         for p in pos:
             pending.append(p)
             if len(pending) == 3:
                 codons.append(tuple(pending))
                 pending = []
-    return codons
+    return codons, degenerate
 
 
 def frames_from_offset(blocks, strand, offset):
-    """frames (aligned with ascending blocks) of one uninterrupted reading frame starting with ``offset`` skipped bases"""
+    """frames (aligned with ascending blocks) of ONE uninterrupted reading frame that starts after ``offset`` skipped
+    bases of the 5'-most exon: frame of a later exon = number of bases of the codon pending at its start"""
     order = list(range(len(blocks)))
     if strand == "-":
         order.reverse()
     frames = [None] * len(blocks)
-    f = offset
-    for idx in order:
+    consumed = -offset
+    for n, idx in enumerate(order):
         s, e = blocks[idx]
-        frames[idx] = f
-        # bases consumed: the first f complete the previous codon
-        f = (f - (e - s)) % 3
+        frames[idx] = offset if n == 0 else consumed % 3
+        consumed += e - s
     return frames
